@@ -222,5 +222,87 @@ func deriveStartSim(repo string) (string, []byte, error) {
 	if err := format.Node(&buf, fset, f); err != nil {
 		return "", nil, err
 	}
+	reload, err := deriveReloadAuthzSim(repo)
+	if err != nil {
+		return "", nil, err
+	}
+	buf.WriteString(reload)
 	return filepath.Join(repo, "server", "zz_verif_startsim_gen.go"), buf.Bytes(), nil
+}
+
+// deriveReloadAuthzSim returns the source of (*Server).reloadAuthzSim: the statements the signal
+// handler of this tree (server/signal.go, handleSignals) runs when the process receives SIGHUP, i.e.
+// the documented hot reload of the authorization policy. handleSignals itself is deleted from the
+// simulated start-up (signal.Notify and a naked goroutine cannot run in the bubble); the harness
+// "sends the signal" by calling reloadAuthzSim on the server's node.
+//
+// The statements are copied verbatim into a loop that runs once, so that a `continue` of the
+// handler's `for sig := range c` loop ends the handling of this one signal as it does there.
+// A tree whose handler has no SIGHUP case (or does not ask to be notified of SIGHUP) gets an empty
+// reloadAuthzSim and reloadAuthzSimDerived == false: that is a behaviour of the tree (a reload that
+// does nothing) for the check to judge, not tooling trouble. More than one SIGHUP case is trouble.
+func deriveReloadAuthzSim(repo string) (string, error) {
+	path := filepath.Join(repo, "server", "signal.go")
+	src, err := os.ReadFile(path)
+	if err != nil {
+		return "", err
+	}
+	fset := token.NewFileSet()
+	f, err := parser.ParseFile(fset, path, src, 0)
+	if err != nil {
+		return "", err
+	}
+	var fn *ast.FuncDecl
+	for _, d := range f.Decls {
+		if fd, ok := d.(*ast.FuncDecl); ok && fd.Recv != nil && fd.Name.Name == "handleSignals" {
+			fn = fd
+		}
+	}
+	if fn == nil {
+		return "", fmt.Errorf("derive: handleSignals not found in %s", path)
+	}
+	var cases []*ast.CaseClause
+	notified := false
+	ast.Inspect(fn, func(n ast.Node) bool {
+		switch x := n.(type) {
+		case *ast.CaseClause:
+			for _, e := range x.List {
+				if isSel(e, "syscall", "SIGHUP") {
+					cases = append(cases, x)
+				}
+			}
+		case *ast.CallExpr:
+			if isSel(x.Fun, "signal", "Notify") {
+				for _, a := range x.Args {
+					if isSel(a, "syscall", "SIGHUP") {
+						notified = true
+					}
+				}
+			}
+		}
+		return true
+	})
+	if len(cases) > 1 {
+		return "", fmt.Errorf("derive: %d SIGHUP cases in handleSignals: the signal handler changed shape, adapt instr/derive.go", len(cases))
+	}
+	var b strings.Builder
+	found := len(cases) == 1 && notified
+	fmt.Fprintf(&b, "\n// reloadAuthzSimDerived: the tree's signal handler has a SIGHUP case and registers for SIGHUP.\nconst reloadAuthzSimDerived = %v\n", found)
+	b.WriteString("\n// reloadAuthzSim is the SIGHUP case of handleSignals (server/signal.go) of this tree.\nfunc (s *Server) reloadAuthzSim() {\n\tfor once := true; once; once = false {\n")
+	if found {
+		for _, st := range cases[0].Body {
+			var sb bytes.Buffer
+			if err := format.Node(&sb, fset, st); err != nil {
+				return "", err
+			}
+			b.WriteString(sb.String())
+			b.WriteString("\n")
+		}
+	}
+	b.WriteString("\t}\n}\n")
+	out, err := format.Source([]byte("package server\n" + b.String()))
+	if err != nil {
+		return "", fmt.Errorf("derive: reloadAuthzSim does not format: %v", err)
+	}
+	return strings.TrimPrefix(string(out), "package server\n"), nil
 }
